@@ -247,6 +247,59 @@ func scenarios(o *common.Opts) []*callsim.Scenario {
 				Servers: []callsim.ServerSpec{{Kind: "normal", Rules: rules}}, Calls: calls, GapMs: 40, Record: !withBurst && np == 2})
 		}
 	}
+	// the server aborts the shared connection (RST) or garbles it while other requests are in flight
+	{
+		// forced interleaving (verif yield points of the transport client): the receiver goroutine of the
+		// reset connection is held before its connection.close until the sender goroutine has closed the
+		// connection after a failed write and another caller's ReConnect has installed a new one; its
+		// close then runs on an already replaced connection. Afterwards a plain call must succeed.
+		cl := callsim.ClientConf{WriteTimeoutMs: -1, DialTimeoutMs: 400, ProxyTimeoutMs: 300}
+		calls := []callsim.CallSpec{
+			{Wave: 0, Timeout: "proxy", MustOK: true},
+			{Wave: 1, Timeout: "proxy", Trigger: "reset"},
+			{Wave: 2, Timeout: "proxy"},
+			{Wave: 2, Timeout: "proxy", DelayMs: 60, MustOK: true},
+			{Wave: 3, Timeout: "proxy", MustOK: true},
+			{Wave: 3, Timeout: "proxy", DelayMs: 20, MustOK: true},
+		}
+		add(&callsim.Scenario{Name: "stale-close-forced", Class: "stale-close", Client: cl, Force: "stale-close",
+			Servers: []callsim.ServerSpec{{Kind: "normal"}}, Calls: calls, GapMs: 100, CapMs: 5000})
+		// storm: 8 concurrent callers per round on one proxy, one of them makes the server reset / garble the
+		// connection while the others' requests (some of them 32 KiB) are being written; then a plain call
+		rounds := 6
+		storms := 1
+		if o.Thorough() {
+			rounds = 40
+			storms = 3
+		}
+		for st := 0; st < storms; st++ {
+			cl := callsim.ClientConf{WriteTimeoutMs: -1, DialTimeoutMs: 400, ProxyTimeoutMs: 150}
+			var calls []callsim.CallSpec
+			for c := 0; c < 4; c++ {
+				calls = append(calls, callsim.CallSpec{Wave: 0, Timeout: "proxy", MustOK: true})
+			}
+			for rd := 1; rd <= rounds; rd++ {
+				trig := rng.Intn(8)
+				for c := 0; c < 8; c++ {
+					cs := callsim.CallSpec{Wave: rd, Timeout: kinds[(rd+c)%3], TimeoutMs: 150, DelayMs: rng.Intn(12)}
+					if c%3 == 0 {
+						cs.PayloadLen = 32 << 10
+					}
+					if c == trig {
+						cs.Trigger = "reset"
+						if (rd+st)%4 == 3 {
+							cs.Trigger = "garbage"
+						}
+						cs.DelayMs = 3 + rng.Intn(6)
+					}
+					calls = append(calls, cs)
+				}
+			}
+			calls = append(calls, callsim.CallSpec{Wave: rounds + 1, Timeout: "ctx", TimeoutMs: 1500, MustOK: true})
+			add(&callsim.Scenario{Name: fmt.Sprintf("reset-under-load-%d", st), Class: "reset-under-load", Client: cl,
+				Servers: []callsim.ServerSpec{{Kind: "normal"}}, Calls: calls, GapMs: 20, CapMs: 6000 + 400*rounds})
+		}
+	}
 	// callers queue up behind the dial lock of an endpoint that does not answer the dial
 	{
 		cl := callsim.ClientConf{WriteTimeoutMs: -1, DialTimeoutMs: 500, ProxyTimeoutMs: 200}
@@ -366,6 +419,17 @@ func main() {
 		if o.Replay != "" {
 			b, _ := json.MarshalIndent(r, "", " ")
 			fmt.Println("impl result:", string(b))
+		}
+		if sc.Force != "" {
+			if r.ForceHeld == 0 {
+				res.Fatal(o.Out, fmt.Errorf("scenario %s: no goroutine reached the forced yield point (%s)", sc.Name, sc.Force))
+			}
+			if r.ForceDone == 0 {
+				res.Note("scenario %s: the forced interleaving (%s) was not reached within the time limit", sc.Name, sc.Force)
+				res.Histogram["forced-interleaving-missed"]++
+			} else {
+				res.Histogram["forced-interleaving-reached"]++
+			}
 		}
 		if sc.Filter != "" && sc.Filter != "none" {
 			if r.FilterHit == 0 && len(r.Calls) > 0 {
@@ -534,7 +598,7 @@ func main() {
 	}
 	res.Rule = "real client in child processes against fake servers: silent / late / slow / close after request / close on accept / garbage frame / garbage body / refuse / black hole / never reading, " +
 		"x timeout source (configured, per-call, context) x 1-8 concurrent callers; dispatch path (no filter, single client filter, middleware chain, pre+post filters) x timeout source x {silent, far too late} in full;  wall clock vs effective deadline + DialTimeout + 700 ms; counters through the verif export after every wave; " +
-		"2-3 ServantProxy objects sharing one adapter with overlapping calls (per-proxy queueLen, burst of ObjQueueMax calls per proxy afterwards); a further call after a late reply; histories with <= 2 concurrent callers replayed through the LTS; non-trivial = every scenario"
+		"server resets / garbles the shared connection under 8 concurrent callers (storm) and the forced interleaving 'close of an already replaced connection' (verif yield points), each followed by plain calls; 2-3 ServantProxy objects sharing one adapter with overlapping calls (per-proxy queueLen, burst of ObjQueueMax calls per proxy afterwards); a further call after a late reply; histories with <= 2 concurrent callers replayed through the LTS; non-trivial = every scenario"
 	if err := res.Write(o.Out); err != nil {
 		panic(err)
 	}
